@@ -73,6 +73,11 @@ var corpus = []pat{
 	{`(a|b)\1+c?`, oE, []string{"a", "b", "aa", "bb", "c", "ab"}, "ecma backreference"},
 	{`(?P<word>\w+)-(?P<num>\d+)`, oRE2, []string{"ab", "-", "12", "x-7", " ", "é"}, "re2 named"},
 	{`(?<a>x)|(?<b>y)`, oN | oRTL, []string{"x", "y", "xy", "z"}, "explicitcapture rtl"},
+	// anchors and start positions: \G chains, \A, \z, \Z, end anchors right-to-left
+	{`\G(\d)`, 0, []string{"1", "2", "a", "12", " 3", "é"}, "G anchor"},
+	{`\A(\w+)|(\d+)\z`, 0, []string{"ab", "12", " ", "x9", "\n", "é"}, "A and z anchors"},
+	{`(\w+)\Z`, oRTL, []string{"ab", "12", " ", "\n", "é", "b\n"}, "Z anchor rtl"},
+	{`\Gab|cd$`, oRTL | oM, []string{"ab", "cd", "\n", "abab", "x"}, "G and multiline end rtl"},
 	// sparse explicit group numbers with groups that take part in some matches only
 	{`(?<5>[a-z]+)?(\d)`, 0, []string{"ab", "7", "...", "x9", " ", "12"}, "sparse optional group"},
 	{`(?<7>a)|(?<3>b)(c)?`, 0, []string{"a", "b", "bc", "c", "ab", " "}, "sparse alternation groups"},
